@@ -6,6 +6,7 @@ import (
 	"regexp"
 
 	"verifh/core"
+	"verifh/envfs"
 	"verifh/scen"
 )
 
@@ -17,6 +18,7 @@ type p2Case struct {
 	G           int           `json:"g,omitempty"`      // goroutines for verify/repair
 	DoubleCheck bool          `json:"dc,omitempty"`
 	Extra       []string      `json:"extra,omitempty"`  // unrelated files to drop beside the set (C02)
+	FailWrite   int           `json:"failwrite,omitempty"` // C02: the k-th write during Repair fails without effect (0 = none)
 }
 
 // clause selection
@@ -67,7 +69,20 @@ func runP2(c *p2Case, r *core.Rec, cl p2Clauses) *p2Run {
 	o := &run.O
 	vfs := fs.Clone()
 	s.ObserveVerify(vfs, c.G, o)
+	if c.FailWrite > 0 {
+		nw := 0
+		fs.Hook = func(index int, kind, p string, data []byte) *envfs.Fault {
+			if kind == "write" {
+				nw++
+				if nw == c.FailWrite {
+					return &envfs.Fault{Err: envfs.ErrInjected, Partial: -1, Kind: "error"}
+				}
+			}
+			return nil
+		}
+	}
 	s.ObserveRepair(fs, c.G, c.DoubleCheck, o)
+	fs.Hook = nil
 	r.AddStates(1)
 	r.AddTransitions(2)
 
